@@ -18,7 +18,7 @@ import (
 func HelperLegC12(res *core.Result, tier string, seed int64, outDir string, replay string) error {
 	nProg := 16
 	if tier == "thorough" {
-		nProg = 80
+		nProg = 200
 	}
 	rng := core.NewRng(seed + 7)
 	var cases []*conv.Case
